@@ -61,7 +61,7 @@ REQUIRED_ORACLES = [
     "exact-data:projected-linear-recovers", "exact-data:backtracking-recovers",
     "options:eq-only:eq-holds", "options:ineq-only:ineq-holds",
 ]
-MIN_EVALS = {"quick": 3000, "thorough": 30000}
+MIN_EVALS = {"quick": 10000, "thorough": 100000}
 WATCHDOG = {"quick": 900, "thorough": 3600}
 ASSUMPTIONS = [
     "testers use identity-first orthonormal Hermitian bases (normalised Pauli / Gell-Mann and tensor products); exact "
@@ -88,8 +88,8 @@ def shards(tier, seed):
     out = []
     # (shape, tomo) -> (cases per flag, parts per flag, cost of one case in cpu-seconds (measured, rough))
     if tier == "quick":
-        plan = {("S1", "qst"): (12, 3, 2.5), ("S1", "povmt"): (4, 4, 14.0), ("S1", "qpt"): (4, 4, 10.0), ("S1", "qmpt"): (3, 3, 30.0),
-                ("S3", "qst"): (4, 4, 10.0)}
+        plan = {("S1", "qst"): (16, 4, 2.5), ("S1", "povmt"): (6, 6, 14.0), ("S1", "qpt"): (6, 6, 10.0), ("S1", "qmpt"): (4, 4, 30.0),
+                ("S3", "qst"): (6, 3, 4.0)}
     else:
         plan = {("S1", "qst"): (120, 4, 2.5), ("S1", "povmt"): (40, 5, 14.0), ("S1", "qpt"): (40, 5, 10.0), ("S1", "qmpt"): (24, 8, 30.0),
                 ("S3", "qst"): (32, 4, 10.0), ("S3", "povmt"): (12, 4, 40.0), ("S3", "qpt"): (4, 4, 150.0), ("S3", "qmpt"): (2, 2, 300.0),
@@ -122,11 +122,14 @@ def tol_direct(a_norm):
 def tol_recover(smin):
     """Backtracking stops when one step lowers the loss by <= eps (1e-14).  With the Armijo rule the decrease is
     >= gamma*alpha*mu*|y|^2 (y the projected-gradient step), so at the stop |grad| ~ sqrt(eps*mu/(gamma*alpha)) ~ 5e-7
-    and the distance to the minimiser is |grad| / lambda_min(Hessian) with lambda_min >= sigma_min(A)^2.  Measured on
-    the pinned tree (1-qubit QST, cond 1.7..59): distance = 3e-8 / sigma_min^2 (both loss families, criterion-
-    terminated runs).  tol_pass = 1e-6 for sigma_min^2 >= 1/9 and grows as 1/sigma_min^2 below; tol_fail = 1000 x."""
-    tp = 1e-6 * max(1.0, 1.0 / (9.0 * smin * smin))
-    return tp, 1e3 * tp
+    and the distance to the minimiser is ~ |grad| / lambda_min(Hessian), lambda_min >= sigma_min(A)^2 (relative entropy)
+    or 2 sigma_min(A)^2 (squared error): ~1e-6 for the tester sets used here (sigma_min 0.55..0.8).  Measured on the
+    pinned tree over 1122 criterion-terminated runs of the thorough tier: squared error (both flags, interior and
+    boundary) and relative entropy with the equality constraint built in, interior: <= 6e-6, median 5e-8; 1-qubit QST
+    with tester sets of cond 1.7..59: 3e-8 / sigma_min^2.  tol_fail is DESIGN's 1e-3 (semantic breaks give >= 1e-2);
+    tol_pass = 1e-5; both grow as 1/sigma_min^2 for sigma_min^2 < 1/9."""
+    tp = 1e-5 * max(1.0, 1.0 / (9.0 * smin * smin))
+    return tp, 1e2 * tp
 
 
 # --------------------------------------------------- fast geometry (scan only)
@@ -462,7 +465,12 @@ def install(ctx):
         if val.shape != (ti["nvar"],):
             ctx.truth("optimize:value-shape", False, key=f"{who}:{tag}:value-has-wrong-shape", info=dict(info0, shape=list(val.shape)))
             return
-        M.judge_point(who, "value", ti, M.stack(ti, val), eq_on, ineq_on, info0, "estimate")
+        r0 = M.judge_point(who, "value", ti, M.stack(ti, val), eq_on, ineq_on, info0, "estimate")
+        if r0 is not None and eq_on and ineq_on and not ti["flag"] and an in ("pgdm", "fista") and algorithm_option.mode_proj_order == "ineq_eq":
+            # recorded, not judged (the statement asks for physicality only): with the order "ineq_eq" the last Dykstra
+            # step is the closed-form equality projection, so a projection output has an equality error at round-off
+            # level; an error at the sqrt(eps_proj_physical) level tells that the option did not reach the projection
+            ctx.count("recorded:algorithm-option-mode_proj_order=ineq_eq:" + ("effective" if r0[0] <= 1e-11 else "without-effect"))
         if not on_iteration_history or result.x is None:
             return
         xs = result.x
@@ -621,10 +629,11 @@ def draw_testers(d, rng):
     vecs = [(g @ u)[:, j] for u in us for j in range(d)]
     povms = [[(1 - lam_p) * np.outer((g @ u)[:, j], (g @ u)[:, j].conj()) + lam_p * eye for j in range(d)] for u in us]
     states = [(1 - lam_s) * np.outer(v, v.conj()) + lam_s * eye for v in vecs]
+    full = list(states)
     if d <= 3 and rng.random() < 0.4:  # a smaller (still over-complete) state set
         keep = sorted(rng.choice(len(states), size=d * d + 1, replace=False).tolist())
         states = [states[i] for i in keep]
-    return states, povms, {"rotated": not np.allclose(g, np.eye(d)), "depol_povm": lam_p, "depol_state": lam_s, "n_states": len(states)}
+    return states, povms, {"rotated": not np.allclose(g, np.eye(d)), "depol_povm": lam_p, "depol_state": lam_s, "n_states": len(states)}, full
 
 
 def build_qt(tomo, states, povms, m_true, flag, eps):
@@ -769,10 +778,19 @@ def run_shard(ctx):
             elif t == "MProcess":
                 m = int(rng.integers(2, 4)) if shape == "S1" else 2
             eps = None if rng.random() < 0.75 else 1e-10
-            st_m, pv_m, tdesc = draw_testers(d, rng)
+            st_m, pv_m, tdesc, st_full = draw_testers(d, rng)
             states = [gen.make_state(c_sys, r) for r in st_m] if tomo != "qst" else []
             povms = [gen.make_povm(c_sys, ms) for ms in pv_m] if tomo != "povmt" else []
             ok, qt = ctx.attempt(build_qt, tomo, states, povms, m, flag, eps)
+            if ok and tomo != "qst" and tdesc["n_states"] < d * (d + 1):
+                with hs.paused():
+                    sv = np.linalg.svd(np.asarray(qt.calc_matA(), dtype=np.float64), compute_uv=False)
+                if sv[-1] < 1e-2 * sv[0]:  # the reduced state set is not (well) informationally complete: use the full one
+                    ctx.count("reduced-state-set-not-IC:full-set-used")
+                    st_m = st_full
+                    tdesc["n_states"] = len(st_m)
+                    states = [gen.make_state(c_sys, r) for r in st_m]
+                    ok, qt = ctx.attempt(build_qt, tomo, states, povms, m, flag, eps)
             if not ok:
                 ctx.violation(f"{tomo}.ctor:" + ctx.exc_key(qt), {"testers": tdesc})
                 continue
